@@ -838,7 +838,7 @@ func runHostile(in *hIn) (res string, value string, ops string, allocBytes uint6
 	if c.verified {
 		v = 1
 	}
-	if strings.Contains(in.tag, ".extmap") && dec != "panic" {
+	if (strings.Contains(in.tag, ".extmap") || strings.Contains(in.tag, ".dupfield")) && dec != "panic" {
 		dec, value = "?", "" // outside the modelled wire domain: the accept/refuse verdict is not compared
 	}
 	var ms1 runtime.MemStats
@@ -1584,6 +1584,53 @@ func (g *hGen) mutateTree(tree *mpNode) (string, bool) {
 	default:
 		s.parent.Kids[s.idx] = r.mpTree(2, true)
 		return "field.random", true
+	}
+}
+
+// dupFieldOversize: a token (or a conditional caveat's body) written as a map that names one field TWICE; the second
+// value - decoded on top of the first - announces far more elements or bytes than the input holds. Whatever the
+// library does with the second value, the memory it takes stays bounded by the input. (No accept/refuse verdict
+// from the model: fields named twice are outside its wire domain.)
+func (g *hGen) dupFieldOversize() {
+	r := g.r
+	names := []string{"Nonce", "Location", "UnsafeCaveats", "Tail"}
+	for i := 0; i < 60; i++ {
+		tree, _ := g.validToken()
+		fi := r.Intn(4)
+		first := tree.Kids[fi]
+		if r.Chance(1, 3) && (first.Kind == mpArr || first.Kind == mpMap) {
+			first = &mpNode{Kind: first.Kind} // an empty first value: the second one decodes onto an allocated, empty field
+		}
+		second := oversizeHeader(tree.Kids[fi], pick(r, []uint64{1 << 16, 1 << 20, 1 << 24, 1<<28 + 3, 1<<32 - 2}))
+		if second == nil {
+			continue
+		}
+		var kids []*mpNode
+		for k, nm := range names {
+			if k == fi {
+				kids = append(kids, mpS(nm), first)
+			} else {
+				kids = append(kids, mpS(nm), tree.Kids[k])
+			}
+		}
+		// the repeated field last (the input ends inside it) or right after the first mention
+		if r.Bool() {
+			kids = append(kids, mpS(names[fi]), second)
+		} else {
+			at := 2 * (fi + 1)
+			kids = append(kids[:at:at], append([]*mpNode{mpS(names[fi]), second}, kids[at:]...)...)
+		}
+		g.add("mac", "dupfield.oversize."+names[fi]+".dupfield", mpEnc(mpM(kids...)))
+	}
+	// the same inside a caveat: a conditional caveat (type 13) whose body is a map naming Ifs twice
+	for i := 0; i < 20; i++ {
+		inner, _ := g.validCavs()
+		second := oversizeHeader(inner, pick(r, []uint64{1 << 16, 1 << 24, 1<<32 - 2}))
+		if second == nil {
+			continue
+		}
+		body := mpM(mpS("Ifs"), inner, mpS("Ifs"), second, mpS("Else"), mpU(31))
+		g.add("cavs", "dupfield.oversize.Ifs.dupfield", mpCavs(mpU(13), body))
 	}
 }
 
@@ -2368,6 +2415,7 @@ func famHostile(r *Rng, o *Out, tier string) {
 	g.oversize(true)
 	g.repeated()
 	g.manyRefusing()
+	g.dupFieldOversize()
 	g.skeletons(1200 * scale)
 	g.unknown(500 * scale)
 	g.lenient(250 * scale)
